@@ -120,19 +120,40 @@ def rand_text(rnd, maxcols, mix="any"):
     return cps
 
 
+def _rgb(rnd):
+    return "#%02x%02x%02x" % tuple(rnd.choice([0, 1, 0x7f, 0x80, 0xfe, 0xff, rnd.randint(0, 255)]) for _ in range(3))
+
+
 def rand_pen(rnd):
+    """all ten attributes over their representable values; colours with or without an RGB8 secondary"""
     r = rnd.random()
     if r < 0.08:
         return "-"
     s = ""
     if rnd.random() < 0.6:
-        s += "f%d" % rnd.choice([1, 2, 3, 7, 15, 200, -1])
+        s += "f%d" % rnd.choice([1, 2, 3, 7, 15, 200, 255, 0, -1])
+        if rnd.random() < 0.3:
+            s += _rgb(rnd)
     if rnd.random() < 0.35:
-        s += "b%d" % rnd.choice([0, 4, 5, 100, -1])
+        s += "b%d" % rnd.choice([0, 4, 5, 100, 255, -1])
+        if rnd.random() < 0.3:
+            s += _rgb(rnd)
     if rnd.random() < 0.3:
         s += "B%d" % rnd.choice([0, 1])
     if rnd.random() < 0.2:
         s += "u%d" % rnd.choice([0, 1, 2, 3])
+    if rnd.random() < 0.12:
+        s += "i%d" % rnd.choice([0, 1])
+    if rnd.random() < 0.12:
+        s += "r%d" % rnd.choice([0, 1])
+    if rnd.random() < 0.1:
+        s += "s%d" % rnd.choice([0, 1])
+    if rnd.random() < 0.1:
+        s += "a%d" % rnd.choice([-1, 0, 1, 9, 15])
+    if rnd.random() < 0.1:
+        s += "k%d" % rnd.choice([0, 1])
+    if rnd.random() < 0.1:
+        s += "z%d" % rnd.choice([0, 1, 2, 3])
     return s or "-"
 
 
